@@ -91,6 +91,12 @@ CHECKS = {
         text=("fail_releases_lock, kill_safe, marker_after_compile, globals_restored hold in every reachable state with any faults; every fail/kill point × later request is replayed on the real code, "
               "checking exception, directory contents, root logger handlers, stdout, and the next request's outcome."),
         design="DESIGN.md §6 C15, App. B"),
+    "C16": dict(
+        technique="Lean 4 proof (formatter → lexer → parser round trip for every expression tree; literal exactness) + exact-text correspondence + independent parsers (pycparser, Python ast)",
+        text=("roundtrip_C (every well-formed expression tree: parse(lex(format e)) = erase(norm e)), lex_render, separated_pieces, parse_mono_all, norm_eval, local_faithful(_py) over the regenerated precedence table, "
+              "literal round-trip theorems on exact rationals; statements and the numba grammar are proved partially (named *_partial) and covered by execution. The Lean transcriptions of both formatters are compared "
+              "as exact text with the real ones on all depth-2 parent/child/position trees, seeded deep trees and every statement of real kernels; the real output is re-parsed with pycparser / ast and compared structurally and by value."),
+        design="DESIGN.md §6 C16"),
     "C17": dict(
         technique="Lean 4 proof (operator folding sound for all operands in any field; optimiser algebra) + structural correspondence + exact differential execution",
         text=("add/radd/sub/rsub/mul/rmul/div/rdiv/neg_sound, float_product_sound, global_index_value are proved for ALL operand trees and values over any lawful field; "
